@@ -159,6 +159,18 @@ def history(chk, cl, bk, w, rnd, n_ops):
         if x < 0.16 or not uids:
             k = rnd.choice(KEYS); m = rnd.randrange(len(METAS))
             hd = dict(METAS[m][0]); hd.update({"x-amz-meta-" + a: b for a, b in METAS[m][1].items()})
+            if live and rnd.random() < 0.25:
+                # a create the gateway must refuse, for a key that has uploads in progress: not an operation of the model
+                # (nothing may change: the uploads in progress stay usable)
+                k2 = live[rnd.choice(sorted(live))]["key"]
+                bad = rnd.choice([{"x-amz-object-lock-legal-hold": "ON"}, {"x-amz-object-lock-mode": "GOVERNANCE", "x-amz-object-lock-retain-until-date": "2035-01-01T00:00:00Z"},
+                                  {"x-amz-tagging": "a=b&a=c"}, {"x-amz-checksum-algorithm": "NOPE"}])
+                h2 = dict(hd); h2.update(bad)
+                rr = cl.req("POST", path(k2), query={"uploads": ""}, headers=h2)
+                chk.count("refused-create:%s:%d" % (sorted(bad)[0], rr.status))
+                if rr.status == 200 and rr.xml() is not None:
+                    cl.req("DELETE", path(k2), query={"uploadId": rr.xml().findtext("UploadId")})     # accepted after all: undo
+                if text: text[-1] += " ; then a create for %s refused with %d %s (%s)" % (k2, rr.status, rr.code, sorted(bad)[0])
             r = cl.req("POST", path(k), query={"uploads": ""}, headers=hd)
             if r.status != 200 or r.xml() is None:
                 viol("create-failed", "CreateMultipartUpload of %r answered %d %s" % (k, r.status, r.code)); continue
